@@ -251,7 +251,11 @@ func c13Render(c *Ctx, p *Prog) {
 		recv, old, nw := fn.Params[0], fn.Params[1], fn.Params[2]
 		init := map[ssa.Value]*Sym{old: {Op: "param", Name: "old"}, nw: {Op: "param", Name: "new"}, recv: {Op: "param", Name: "c"}}
 		mk := func() *e6Interp {
-			return &e6Interp{Init: init, PureCall: func(f *types.Func) bool { return true }}
+			// small loop-free helpers of the package (the percentage moved into a function) are evaluated in place
+			return &e6Interp{Init: init, PureCall: func(f *types.Func) bool { return true },
+				Inline: func(f *ssa.Function) bool {
+					return f.Pkg == fn.Pkg && f != fn && f.Parent() == nil && len(naturalLoops(f)) == 0 && len(f.Blocks) <= 8
+				}}
 		}
 		outs, why := e6Enumerate(mk, fn.Blocks[0], nil, nil, 256)
 		if why != "" {
